@@ -338,7 +338,43 @@ def validator_amount_limits():
             shown = list(lst) if len(lst) <= 8 else '%d x %d' % (len(lst), lst[0])
             bad.append(('validator-amount-limit', "a transaction with outputs %s (total %d, limit %d) is %s by the validator" % (
                 shown, sum(lst), MAXS, 'accepted' if got else 'refused')))
-    return len(lists), bad
+    # the same limit for amounts that arrive INSIDE A BLOCK (second / third transaction of a block handed to the block-level
+    # stand-alone validator, built in memory and as decoded from the wire): a block is acceptable only if every ordinary
+    # transaction in it keeps every output and the output total in (0, MAX]
+    from skepticoin.datatypes import Block, BlockHeader, BlockSummary, PowEvidence
+    from skepticoin.signing import CoinbaseData
+    cb = Transaction([Input(OutputReference(b'\x00' * 32, 0), CoinbaseData(7, b''))], [Output(5, pk)])
+    filler = Transaction([Input(OutputReference(b'\x22' * 32, 1), SECP256k1Signature(b'\x06' * 64))], [Output(3, pk)])
+
+    def in_block(txs, wire):
+        txs = [cb] + txs
+        s = BlockSummary(7, b'\x33' * 32, C.calc_merkle_root_hash(txs), 1_700_000_000, b'\xff' * 32, 0)
+        b = Block(BlockHeader(s, PowEvidence(b'\x01' * 32, b'\x02' * 32, b'\x03' * 32)), txs)
+        if wire:
+            b = Block.deserialize(enc.enc_block(b) if hasattr(enc, 'enc_block') else b.serialize())
+        try:
+            C.validate_block_by_itself(b, 1_700_000_100)
+            return True
+        except Exception:
+            return False
+    nblk = 0
+    if in_block([filler], False) and in_block([filler], True):
+        blists = [lst for lst in lists if len(lst) <= 3 or len(lst) > 4]
+        for lst in blists:
+            want = all(0 < v <= MAXS for v in lst) and 0 < sum(lst) <= MAXS
+            t = Transaction(list(inp), [Output(v, pk) for v in lst])
+            for pos, txs in (('second', [t]), ('third', [filler, t])):
+                for wire in (False, True):
+                    if wire and (len(lst) > 2 or pos == 'third'):
+                        continue
+                    nblk += 1
+                    got = in_block(txs, wire)
+                    if got != want and len(bad) < 8:
+                        shown = list(lst) if len(lst) <= 8 else '%d x %d' % (len(lst), lst[0])
+                        bad.append(('validator-amount-limit-in-block', "a block whose %s transaction has outputs %s (total %d, limit %d) "
+                                    "is %s by the stand-alone block validator (%s)" % (
+                                        pos, shown, sum(lst), MAXS, 'accepted' if got else 'refused', 'decoded from the wire' if wire else 'built in memory')))
+    return len(lists) + nblk, bad
 
 
 def _constants(P, C):
